@@ -281,6 +281,9 @@ def v2_llm_fn(task, prompt, i):
     run.  A conversation whose name is in WAITERS gets a body that goes on waiting, i.e. a generated flow that is
     still alive when the turn ends."""
     conv, turn = _V2_CUR
+    if conv in ("G", "H"):
+        # flows whose body is `...` under a docstring: the generated continuation listens to the user and goes on generating
+        return "  await user said something\n  ..."
     lines = prompt[-200:].splitlines()
     if lines and "flow bot express" in lines[-1]:
         body = f'  bot say "GEN-{conv}{turn}"'
@@ -294,8 +297,28 @@ def v2_llm_fn(task, prompt, i):
     return f'bot say "R-{conv}{turn}"'
 
 
+V2_DOC_SRC = '''
+import core
+
+flow main
+  when user said "cook"
+    cooking helper
+  or when user said "travel"
+    travel helper
+
+flow cooking helper
+  """You are a COOKING assistant. Only talk about recipes."""
+  ...
+
+flow travel helper
+  """You are a TRAVEL assistant. Only talk about destinations."""
+  ...
+'''
+
+
 def v2_conv_sets():
     return [
+        ("flow-continued-from-its-docstring", [("G", ["cook", "what about pasta?"]), ("H", ["travel"])], V2_DOC_SRC),
         ("generated-flow-still-alive-at-turn-end", [("A", ["UA hello", "UA again"]), ("B", ["UB hello"])]),
         ("two-conversations-generate-the-same-undefined-flow", [("C", ["UC hello", "UC more"]), ("D", ["UD hello"])]),
         ("waiting-flows-of-two-conversations", [("E", ["UE one"]), ("F", ["UF two", "UF three"])]),
@@ -312,8 +335,9 @@ def v2_request(world, state, text, who=("?", 0)):
 
 def explore_v2(set_index):
     res = {"requests": 0, "interleavings": 0, "conversation_sets": 1, "v2_requests": 0, "viol": []}
-    name, convs = v2_conv_sets()[set_index]
-    mk = lambda: World(V2_SRC, 'colang_version: "2.x"\n')  # noqa: E731
+    name, convs = v2_conv_sets()[set_index][:2]
+    src = (v2_conv_sets()[set_index] + (V2_SRC,))[2]
+    mk = lambda: World(src, 'colang_version: "2.x"\n')  # noqa: E731
     ref = {}
     for cname, texts in convs:
         w, st, out = mk(), {}, []
@@ -559,8 +583,9 @@ def replay(rp):
         from vf.props import c15_conc
         return c15_conc.replay(rp)
     if rp.get("v2"):
-        name, convs = v2_conv_sets()[rp["set_index"]]
-        mk = lambda: World(V2_SRC, 'colang_version: "2.x"\n')  # noqa: E731
+        name, convs = v2_conv_sets()[rp["set_index"]][:2]
+        _src = (v2_conv_sets()[rp["set_index"]] + (V2_SRC,))[2]
+        mk = lambda: World(_src, 'colang_version: "2.x"\n')  # noqa: E731
         ref = {}
         for cname, texts in convs:
             w, st, out = mk(), {}, []
